@@ -1,18 +1,63 @@
 (** C32 — lock ownership invariant and the lock discipline. *)
-From Coq Require Import List NArith ZArith Bool Lia.
+From Coq Require Import List NArith ZArith Bool Lia ZifyN.
 Import ListNotations.
 Require Import Aurora.C32.Model Aurora.C32.ProofsBase.
 Local Open Scope Z_scope.
 
+(** ---- the heap of big.Int cells ---- *)
+Definition heap_ok' (u : N -> option Z) (pt : N -> option N) (h : N -> option Z) (n : N) : Prop :=
+  (forall p, match pt p with
+             | Some a => u p <> None /\ h a = u p
+             | None => u p = None
+             end) /\
+  (forall a, h a <> None -> (a < n)%N).
+(** the field of every existing peer points to an allocated cell holding its
+    balance; everything allocated lies below the allocator *)
+Definition heap_ok (s : sh) : Prop := heap_ok' (unpaid s) (ptr s) (heap s) (next s).
+
+Lemma heap_ok_write_new u pt h n p v :
+  heap_ok' u pt h n -> heap_ok' (upd u p (Some v)) (upd pt p (Some n)) (upd h n (Some v)) (n + 1)%N.
+Proof.
+  intros [H1 H2]. split.
+  - intros q. destruct (upd_cases pt p (Some n) q) as [[-> Hu]|[Hne Hu]]; rewrite Hu.
+    + rewrite !upd_same. split; [discriminate|reflexivity].
+    + rewrite (upd_other u p (Some v) q Hne). specialize (H1 q). destruct (pt q) as [a|]; [|assumption].
+      destruct H1 as [Hn He]. split; [assumption|]. rewrite upd_other; [assumption|].
+      assert (a < n)%N by (apply H2; congruence). lia.
+  - intros a Ha. destruct (upd_cases h n (Some v) a) as [[-> _]|[Hne Hu]]; [lia|].
+    rewrite Hu in Ha. specialize (H2 a Ha). lia.
+Qed.
+
+(** NO STEP WRITES TO AN ALLOCATED CELL: a published big.Int is immutable *)
+Lemma micro_heap c tid s l s' :
+  heap_ok s -> micro_sh c tid s l = Some s' ->
+  heap_ok s' /\ (forall a v, heap s a = Some v -> heap s' a = Some v).
+Proof.
+  intros Hh Hm. unfold micro_sh in Hm.
+  destruct (micro c tid s l) as [|s1 l1|s1 d1] eqn:Hmm; inversion Hm; subst; clear Hm.
+  all: micro_inv Hmm; unfold heap_ok in *; cbn; try (split; [assumption|intros; assumption]).
+  all: split; [now apply heap_ok_write_new|].
+  all: intros a v Ha; rewrite upd_other; [assumption|];
+       destruct Hh as [_ H2]; assert (a < next s)%N by (apply H2; congruence); lia.
+Qed.
+
+Lemma settler_heap s : heap_ok s -> heap_ok (step_settler s) /\ heap (step_settler s) = heap s.
+Proof. unfold step_settler, heap_ok. destruct (sreg s); [|destruct (chan s)]; cbn; auto. Qed.
+
 (** thread [tid] standing at [l]: its program point belongs to its operation,
-    inside a region it owns the peer lock, after getAccountingPeer the peer exists *)
+    inside a region it owns the peer lock, after getAccountingPeer the peer
+    exists, and the cell whose address Reserve copied still holds the value it
+    held when the pointer was copied *)
+Definition snap_pt (p : pt) : bool := match p with PUnlockR | PDeref => true | _ => false end.
 Definition own_ok (c : cfg) (s : sh) (tid : N) (l : loc) : Prop :=
   wf_pt c (l_op l) (l_pt l) = true /\
   (in_region (l_pt l) = true -> lock s (peer_of (l_op l)) = Some tid) /\
-  (past_get (l_pt l) = true -> unpaid s (peer_of (l_op l)) <> None).
+  (past_get (l_pt l) = true -> unpaid s (peer_of (l_op l)) <> None) /\
+  (snap_pt (l_pt l) = true -> heap s (rptr l) = Some (reg l)).
 
-Definition Inv1 (c : cfg) (s : st) : Prop :=
+Definition Inv1t (c : cfg) (s : st) : Prop :=
   forall tid l, cur (thr s tid) = Some l -> own_ok c (shs s) tid l.
+Definition Inv1 (c : cfg) (s : st) : Prop := heap_ok (shs s) /\ Inv1t c s.
 
 Lemma own_ok_start c s tid o : own_ok c s tid (start o).
 Proof.
@@ -22,7 +67,7 @@ Qed.
 Lemma standing_own c s tid l r :
   Inv1 c s -> standing (thr s tid) = Some (l, r) -> own_ok c (shs s) tid l.
 Proof.
-  intros HI Hs. apply standing_cases in Hs as [[Hc _]|[_ [o [_ ->]]]].
+  intros [_ HI] Hs. apply standing_cases in Hs as [[Hc _]|[_ [o [_ ->]]]].
   - now apply HI.
   - apply own_ok_start.
 Qed.
@@ -34,13 +79,15 @@ Ltac own_cases Hm Hwf :=
 
 (** the thread's own step keeps its own facts *)
 Lemma micro_own_next c tid s l s' l' :
-  own_ok c s tid l -> micro c tid s l = Next s' l' -> own_ok c s' tid l'.
+  heap_ok s -> own_ok c s tid l -> micro c tid s l = Next s' l' -> own_ok c s' tid l'.
 Proof.
-  intros [Hwf [Hreg Hex]] Hm.
+  intros Hh [Hwf [Hreg [Hex Hsn]]] Hm.
   own_cases Hm Hwf; unfold own_ok; cbn in *; rewrite ?Eo; cbn;
     try (destruct (reserve_locks c) eqn:Erl; cbn in *; try discriminate);
     repeat split; intros; try discriminate; try reflexivity; try assumption;
     rewrite ?upd_same; try congruence; auto.
+  all: destruct Hh as [Hh1 _];
+       match goal with H : ptr ?s0 ?p0 = Some _ |- _ => specialize (Hh1 p0); rewrite H in Hh1; destruct Hh1; congruence end.
 Qed.
 
 (** effect of anybody's step on the locks *)
@@ -72,16 +119,17 @@ Qed.
 
 (** another thread's step keeps my facts *)
 Lemma micro_own_frame c tid0 s l0 s' tid l :
-  tid <> tid0 -> own_ok c s tid0 l0 -> micro_sh c tid0 s l0 = Some s' ->
+  heap_ok s -> tid <> tid0 -> own_ok c s tid0 l0 -> micro_sh c tid0 s l0 = Some s' ->
   own_ok c s tid l -> own_ok c s' tid l.
 Proof.
-  intros Hne [_ [Hreg0 _]] Hm [Hwf [Hreg Hex]]. repeat split; [assumption| |].
+  intros Hh Hne [_ [Hreg0 _]] Hm [Hwf [Hreg [Hex Hsn]]]. repeat split; [assumption| | |].
   - intros Hin. specialize (Hreg Hin).
     destruct (micro_lock_eff c tid0 s l0 s' (peer_of (l_op l)) Hm) as [He|[[_ [_ Hn]]|[Hq [Hin0 _]]]].
     + now rewrite He.
     + congruence.
     + specialize (Hreg0 Hin0). rewrite <- Hq in Hreg0. congruence.
   - intros Hp. eapply micro_unpaid_mono; eauto.
+  - intros Hs. apply (proj2 (micro_heap c tid0 s l0 s' Hh Hm)). now apply Hsn.
 Qed.
 
 Lemma micro_sh_next c tid s l s' l' : micro c tid s l = Next s' l' -> micro_sh c tid s l = Some s'.
@@ -91,17 +139,20 @@ Proof. unfold micro_sh. now intros ->. Qed.
 
 Lemma Inv1_step c s w : Inv1 c s -> Inv1 c (step c s w).
 Proof.
-  intros HI. destruct w as [|tid0]; cbn [step].
-  - (* settle goroutine: touches neither locks nor balances *)
-    intros tid l Hc. cbn in Hc. specialize (HI tid l Hc). unfold own_ok in *. unfold step_settler.
+  intros [Hh HI]. destruct w as [|tid0]; cbn [step].
+  - (* settle goroutine: touches neither locks nor balances nor the heap *)
+    destruct (settler_heap _ Hh) as [Hh' He]. split; [exact Hh'|].
+    intros tid l Hc. cbn in Hc. specialize (HI tid l Hc). unfold own_ok in *. cbn. rewrite He. unfold step_settler.
     destruct (sreg (shs s)); [|destruct (chan (shs s))]; cbn; assumption.
-  - destruct (step_thread_tstep c tid0 s) as [->|l0 r sh' l' Hs Hm ->|l0 r sh' d Hs Hm ->]; [assumption| |].
-    + pose proof (standing_own c s tid0 l0 r HI Hs) as H0.
+  - destruct (step_thread_tstep c tid0 s) as [->|l0 r sh' l' Hs Hm ->|l0 r sh' d Hs Hm ->]; [now split| |].
+    + pose proof (standing_own c s tid0 l0 r (conj Hh HI) Hs) as H0.
+      split; [exact (proj1 (micro_heap _ _ _ _ _ Hh (micro_sh_next _ _ _ _ _ _ Hm)))|].
       intros tid l Hc. cbn in Hc |- *. destruct (upd_cases (thr s) tid0 {| prog := r; cur := Some l'; done := done (thr s tid0) |} tid) as [[-> Hu]|[Hn Hu]];
         rewrite Hu in Hc.
       * cbn in Hc. inversion Hc; subst. eapply micro_own_next; eauto.
       * eapply micro_own_frame; eauto using micro_sh_next.
-    + pose proof (standing_own c s tid0 l0 r HI Hs) as H0.
+    + pose proof (standing_own c s tid0 l0 r (conj Hh HI) Hs) as H0.
+      split; [exact (proj1 (micro_heap _ _ _ _ _ Hh (micro_sh_fin _ _ _ _ _ _ Hm)))|].
       intros tid l Hc. cbn in Hc |- *. destruct (upd_cases (thr s) tid0 {| prog := r; cur := None; done := d :: done (thr s tid0) |} tid) as [[-> Hu]|[Hn Hu]];
         rewrite Hu in Hc.
       * cbn in Hc. discriminate.
@@ -109,10 +160,32 @@ Proof.
 Qed.
 
 Lemma Inv1_init c e progs : Inv1 c (st0 e progs).
-Proof. intros tid l Hc. cbn in Hc. discriminate. Qed.
+Proof.
+  split.
+  - split; cbn; [intros p; reflexivity | intros a Ha; now elim Ha].
+  - intros tid l Hc. cbn in Hc. discriminate.
+Qed.
 
 Lemma Inv1_run c e progs sched : Inv1 c (run c sched (st0 e progs)).
 Proof. unfold run. apply fold_left_inv; [intros; now apply Inv1_step | apply Inv1_init]. Qed.
+
+(** a cell, once allocated, keeps its value along every execution *)
+Lemma heap_immutable_step c s w a v :
+  Inv1 c s -> heap (shs s) a = Some v -> heap (shs (step c s w)) a = Some v.
+Proof.
+  intros [Hh _] Ha. destruct w as [|tid0]; cbn [step].
+  - cbn. now rewrite (proj2 (settler_heap _ Hh)).
+  - destruct (step_thread_tstep c tid0 s) as [->|l0 r sh' l' Hs Hm ->|l0 r sh' d Hs Hm ->]; [assumption| |]; cbn.
+    + exact (proj2 (micro_heap _ _ _ _ _ Hh (micro_sh_next _ _ _ _ _ _ Hm)) a v Ha).
+    + exact (proj2 (micro_heap _ _ _ _ _ Hh (micro_sh_fin _ _ _ _ _ _ Hm)) a v Ha).
+Qed.
+
+Lemma heap_immutable_run c sched s a v :
+  Inv1 c s -> heap (shs s) a = Some v -> heap (shs (run c sched s)) a = Some v.
+Proof.
+  revert s. unfold run. induction sched as [|w r IH]; intros s HI Ha; cbn; [assumption|].
+  apply IH; [now apply Inv1_step | now apply heap_immutable_step].
+Qed.
 
 (** ---- lock discipline ---- *)
 Definition all_held (s : sh) : Prop := Forall (fun a => a_held a = true) (acc s).
@@ -157,7 +230,7 @@ Lemma no_concurrent_access c s t1 t2 l1 l2 :
   peer_of (l_op l1) = peer_of (l_op l2) -> t1 = t2.
 Proof.
   intros Hrl HI H1 H2 T1 T2 Hp.
-  destruct (HI _ _ H1) as [W1 [R1 _]]. destruct (HI _ _ H2) as [W2 [R2 _]].
+  destruct (proj2 HI _ _ H1) as [W1 [R1 _]]. destruct (proj2 HI _ _ H2) as [W2 [R2 _]].
   assert (I1 : in_region (l_pt l1) = true).
   { destruct (l_pt l1); try discriminate; try reflexivity. destruct (l_op l1); cbn in W1; rewrite ?Hrl in W1; discriminate. }
   assert (I2 : in_region (l_pt l2) = true).
